@@ -154,7 +154,7 @@ func TestC01(t *testing.T) {
 		c.rec.F.Exhaustive = append(c.rec.F.Exhaustive, "version x base metrics (5,184) x 3 decoders")
 	}
 
-	c.rapidStage("rapid", pick(20000, 1000000), func(rt *rapid.T) {
+	c.rapidStage("rapid", pick(64000, 1000000), func(rt *rapid.T) {
 		lv := gen.Level().Draw(rt, "decoder")
 		vec := gen.ValidV3(lv).Draw(rt, "vector")
 		cs := scoreCase3{Level: int(lv), NilRecv: rapid.Bool().Draw(rt, "nilrecv"), Input: vec.String()}
